@@ -24,6 +24,11 @@ let run_paillier (k : skey) (ops : string list) : string list =
     match String.split_on_char ',' o with
     | ["E"; m; r] -> cto (let* m = pt (z m) in let* r = nonce (z r) in Some (enc n m r))
     | ["e"; m; r] -> cto (let* m = pt (z m) in let* r = nonce (z r) in Some (sk_enc k m r))
+    | ["F"; m'; m; r] -> cto (let* m = plaintext_from_nat (z m') (z m) in let* r = nonce (z r) in pk_enc_ring n (z m') m r)
+    | ["f"; m'; m; r] -> cto (let* m = plaintext_from_nat (z m') (z m) in let* r = nonce (z r) in sk_enc_ring k (z m') m r)
+    | ["G"; i; m'; d] | ["g"; i; m'; d] ->
+      (* Shift by a plaintext carried in Z_M: output only, no register *)
+      opt (let* d = plaintext_from_nat (z m') (z d) in shift_ring n (z m') (reg i) d)
     | ["A"; i; j] -> ct (cmul n (reg i) (reg j))
     | ["a"; i; j] -> ct (sk_cmul k (reg i) (reg j))
     | ["M"; i; j; l] -> ct (cmul n (cmul n (reg i) (reg j)) (reg l))
@@ -126,6 +131,9 @@ let () =
         | "nscale", [a; k] -> opt (nonce_scale n a k)
         | "unit", [v] -> opt (unit_from n v)
         | "rep", [m] -> h (representative n m)
+        | "repM", [m'; m] -> opt (match plaintext_from_nat m' m with Some m -> pk_representative_ring n m' m | None -> None)
+        | "paddM", [m'; a; b] -> opt (match plaintext_from_nat m' a with Some a -> pt_add_ring n m' a b | None -> None)
+        | "pscaleM", [m'; a; k] -> opt (match plaintext_from_nat m' a with Some a -> pt_scale_ring n m' a k | None -> None)
         | "noise", [r] -> h (noise n r)
         | _ -> failwith ("bad Q op " ^ line) in
       Printf.printf "Q %s %s\n" id r
